@@ -10,6 +10,8 @@ import (
 	"context"
 	"fmt"
 	"math"
+	"os"
+	"os/exec"
 	"runtime"
 	"strings"
 	"sync"
@@ -84,9 +86,12 @@ func directedQuerySide(c *ctx, r Rng, which string) {
 	case "C21":
 		dirReadFailsAfterCancel(c, r)
 		dirCloseWithBackedUpPipeline(c, r)
+		dirTerminalWhileReadInFlight(c, r)
 	case "C22":
 		dirCancelledWaiterReads(c, r)
 		dirStalledSectionless(c, r)
+		dirStalledBloomManyFiles(c, r)
+		dirOpensCountAsIO(c, r)
 	case "C23":
 		dirCorruptFilterSection(c, r)
 		dirReversedSectionsReadFault(c, r)
@@ -681,36 +686,18 @@ func dirStalledSectionless(c *ctx, r Rng) {
 // read fails. Whatever fails, BlockStats lists all or none of the file's blocks, and every returned row's
 // block is listed.
 func dirReversedSectionsReadFault(c *ctx, r Rng) {
+	// first in a process of its own: if the layout brings the engine down, report that instead of dying with it
+	if ok, out := runChild("reversed-sections-query"); !ok {
+		c.r.Add(Finding{Kind: "violation", Check: "query-crashes-process", Detail: "a bloom-conditioned query over a valid file whose filter sections are stored in reverse block order brought the process down: " + trunc(lastLines(out, 6), 600), Replay: map[string]any{"scenario": "harness child reversed-sections-query", "output": trunc(out, 3000)}})
+		return
+	}
 	for i := 0; i < 3*c.scale; i++ {
 		env, _ := dirPop(pick(r, []int{1, 4}), 1, 8, 4)
-		files, _ := AllFiles(env.Meta)
-		victim := files[0]
-		orig := env.Data.Published()[string(victim.PointerBytes)]
-		md := victim.Metadata
-		md.DataBlocks = append([]bs.DataBlockMetadata(nil), md.DataBlocks...)
-		ro := md.BlockFilterRegionOffset
-		var region []byte
-		for j := len(md.DataBlocks) - 1; j >= 0; j-- {
-			b := &md.DataBlocks[j]
-			if b.BloomFilterSize == 0 {
-				continue
-			}
-			sec := orig[b.BloomFilterOffset : b.BloomFilterOffset+b.BloomFilterSize]
-			b.BloomFilterOffset = ro + len(region)
-			region = append(region, sec...)
-		}
-		if len(region) != md.BlockFilterRegionSize {
+		md, buf, ok := reverseSections(env)
+		if !ok {
+			c.r.Note("reversed-sections: could not re-lay out the file")
 			continue
 		}
-		var buf bytes.Buffer
-		buf.Write(orig[:ro])
-		buf.Write(region)
-		if err := bs.WriteFileFooter(&buf, &md); err != nil {
-			c.r.Note("reversed-sections: footer: %v", err)
-			continue
-		}
-		env.Data.Put(string(victim.PointerBytes), buf.Bytes())
-		env.Meta.Update(context.Background(), []bs.WriteOperation{{FileMetadata: &md, FilePointerBytes: victim.PointerBytes}}, nil)
 		blockOf := map[int]int{} // row id -> block offset
 		for _, b := range md.DataBlocks {
 			data, err := bs.ReadDataBlockRowData(bytes.NewReader(buf.Bytes()), &b)
@@ -925,4 +912,237 @@ func dirPartialFilterSets(c *ctx, r Rng) {
 			checkStatsAndReads(c, h, layout, q, sc, out, blockOf, "C24", replay)
 		}
 	}
+}
+
+// dirTerminalWhileReadInFlight (C21): a worker is inside a DataStore read (parked by the store, released 300 ms
+// later) when the query is ended in each of the documented ways: cancel then Close without another Next; Close
+// from another goroutine just before Next; cancel then Next; plain Close. At the instant Close returns / Next
+// returns false, every handle the query opened has been closed - the call waits for the read to come back.
+func dirTerminalWhileReadInFlight(c *ctx, r Rng) {
+	names := []string{"cancel, then Close without another Next", "Close from another goroutine, then Next", "cancel, then Next", "Close"}
+	for i := 0; i < 8*c.scale; i++ {
+		variant := i % 4
+		env, _ := dirPop(pick(r, []int{1, 2}), 3, 3, 1)
+		eng := freshOver(env, "never")
+		k := 1 + r.IntN(3)
+		pk := newParker("read", k)
+		env.Data.ResetLog()
+		env.Data.Gate = func(op, file string) { pk.hit(op) }
+		ctx, cancel := context.WithCancel(context.Background())
+		q := pick(r, []*bs.Query{{}, bs.NewQuery().Token("needle").Build()})
+		res, err := eng.Query(ctx, q)
+		if err != nil {
+			cancel()
+			env.Data.Gate = nil
+			continue
+		}
+		parked := false
+		select {
+		case <-pk.parked:
+			parked = true
+		case <-time.After(500 * time.Millisecond):
+			pk.disarm()
+		}
+		if parked {
+			go func() { time.Sleep(300 * time.Millisecond); close(pk.release) }()
+		}
+		openAtReturn := int64(-1)
+		done := make(chan struct{})
+		go func() {
+			defer close(done)
+			switch variant {
+			case 0:
+				cancel()
+				res.Close()
+			case 1:
+				go res.Close()
+				time.Sleep(20 * time.Millisecond)
+				for res.Next() {
+				}
+			case 2:
+				cancel()
+				for res.Next() {
+				}
+			case 3:
+				res.Close()
+			}
+			openAtReturn = env.Data.OpenHandles()
+		}()
+		ok := true
+		select {
+		case <-done:
+		case <-time.After(10 * time.Second):
+			ok = false
+		}
+		replay := map[string]any{"ended_by": names[variant], "parked_read": k, "parked": parked, "open_handles_at_return": openAtReturn}
+		c.r.Case(parked, fmt.Sprint("terminal-read-in-flight", i, variant))
+		c.r.Hit("directed.terminal-read-in-flight." + b2s(parked))
+		if !ok {
+			c.r.Add(Finding{Kind: "violation", Check: "next-never-false", Detail: fmt.Sprintf("the query did not reach its terminal state within 10s (%s)", names[variant]), Replay: replay})
+		} else if parked && openAtReturn != 0 {
+			c.r.Add(Finding{Kind: "violation", Check: "handles-open-at-terminal", Detail: fmt.Sprintf("%s returned while %d DataStore handles of the query were still open (a read was in flight inside the store)", names[variant], openAtReturn), Replay: replay})
+		}
+		res.Close()
+		cancel()
+		env.Data.Gate = nil
+		time.Sleep(2 * time.Millisecond)
+	}
+}
+
+// dirStalledBloomManyFiles (C22): a bloom-conditioned query whose consumer never calls Next, over many
+// engine-written files with few surviving blocks each (1, 3 or 12): whatever stage of its pipeline backs up,
+// it parks holding no slot - a second query over the same store completes.
+func dirStalledBloomManyFiles(c *ctx, r Rng) {
+	for i := 0; i < 3*c.scale; i++ {
+		per := []int{1, 3, 12}[i%3]
+		nfiles := 60
+		if per == 12 {
+			nfiles = 12
+		}
+		env, total := dirPop(pick(r, []int{1, 2, 3}), nfiles, per, per)
+		eng := freshOver(env, pick(r, []string{"never", "started"}))
+		q := bs.NewQuery().Token("needle").Build()
+		actx, acancel := context.WithCancel(context.Background())
+		ares, err := eng.Query(actx, q)
+		if err != nil {
+			acancel()
+			continue
+		}
+		// wait until A's pipeline has backed up: no store call for 150 ms
+		last, stable := -1, 0
+		for stable < 15 {
+			time.Sleep(10 * time.Millisecond)
+			n := len(env.Data.Log())
+			if n == last {
+				stable++
+			} else {
+				stable, last = 0, n
+			}
+		}
+		bres, err := eng.Query(context.Background(), q)
+		var rows []map[string]any
+		ok := false
+		if err == nil {
+			rows, ok = drainWatch(bres, 8*time.Second)
+		}
+		replay := map[string]any{"files": nfiles, "blocks_per_file": per, "MaxQueryConcurrency": env.Cfg.MaxQueryConcurrency, "second_query_rows": len(rows), "slots_in_use": eng.VerifSemaphoreInUse()}
+		c.r.Case(true, fmt.Sprint("stalled-bloom-many-files", i, per, env.Cfg.MaxQueryConcurrency))
+		c.r.Hit("directed.stalled-bloom-many-files")
+		if !ok || len(rows) != total {
+			c.r.Add(Finding{Kind: "violation", Check: "stalled-query-starves-others", Detail: fmt.Sprintf("with one bloom-conditioned query stalled (its consumer never calls Next) over %d files of %d blocks, a second query returned %d of %d rows within 8s (completed=%v, MaxQueryConcurrency=%d)", nfiles, per, len(rows), total, ok, env.Cfg.MaxQueryConcurrency), Replay: replay})
+		}
+		acancel()
+		ares.Close()
+		if err == nil {
+			bres.Close()
+		}
+		eng.Stop(context.Background())
+	}
+}
+
+// dirOpensCountAsIO (C22): two and three concurrent bloom-conditioned queries over a slow store; OpenFile calls
+// are DataStore I/O like reads, and the store's gauge of calls in progress (opens and reads) never exceeds
+// MaxQueryConcurrency.
+func dirOpensCountAsIO(c *ctx, r Rng) {
+	for i := 0; i < 3*c.scale; i++ {
+		capN := 1 + i%2
+		env, total := dirPop(capN, 6, 2, 2)
+		eng := freshOver(env, "never")
+		env.Data.ReadDelay = 2 * time.Millisecond
+		env.Data.OpenDelay = 4 * time.Millisecond
+		env.Data.ResetReadGauge()
+		var wg sync.WaitGroup
+		nq := 3
+		got := make([]int, nq)
+		for k := 0; k < nq; k++ {
+			wg.Add(1)
+			go func(k int) {
+				defer wg.Done()
+				res, err := eng.Query(context.Background(), bs.NewQuery().Token("needle").Build())
+				if err != nil {
+					return
+				}
+				rows, _ := drainWatch(res, 20*time.Second)
+				got[k] = len(rows)
+				res.Close()
+			}(k)
+		}
+		wg.Wait()
+		env.Data.ReadDelay, env.Data.OpenDelay = 0, 0
+		mx := env.Data.MaxConcurrentReads()
+		c.r.Case(true, fmt.Sprint("opens-count-as-io", i, capN))
+		c.r.Hit("directed.opens-count-as-io")
+		if mx > int64(capN) {
+			c.r.Add(Finding{Kind: "violation", Check: "reads-exceed-cap", Detail: fmt.Sprintf("%d DataStore calls of queries (OpenFile and Read) were in progress at once with MaxQueryConcurrency=%d (three concurrent bloom-conditioned queries, slow store)", mx, capN), Replay: map[string]any{"MaxQueryConcurrency": capN, "queries": nq, "rows": got, "stored": total}})
+		}
+	}
+}
+
+// reverseSections re-lays out the (single) file of env with its filter sections in the reverse order of its row
+// data blocks - legal for an external writer using WriteFileFooter - and installs it in both stores.
+func reverseSections(env *Env) (bs.FileMetadata, *bytes.Buffer, bool) {
+	files, _ := AllFiles(env.Meta)
+	victim := files[0]
+	orig := env.Data.Published()[string(victim.PointerBytes)]
+	md := victim.Metadata
+	md.DataBlocks = append([]bs.DataBlockMetadata(nil), md.DataBlocks...)
+	ro := md.BlockFilterRegionOffset
+	var region []byte
+	for j := len(md.DataBlocks) - 1; j >= 0; j-- {
+		b := &md.DataBlocks[j]
+		if b.BloomFilterSize == 0 {
+			continue
+		}
+		sec := orig[b.BloomFilterOffset : b.BloomFilterOffset+b.BloomFilterSize]
+		b.BloomFilterOffset = ro + len(region)
+		region = append(region, sec...)
+	}
+	var buf bytes.Buffer
+	if len(region) != md.BlockFilterRegionSize {
+		return md, &buf, false
+	}
+	buf.Write(orig[:ro])
+	buf.Write(region)
+	if err := bs.WriteFileFooter(&buf, &md); err != nil {
+		return md, &buf, false
+	}
+	env.Data.Put(string(victim.PointerBytes), buf.Bytes())
+	env.Meta.Update(context.Background(), []bs.WriteOperation{{FileMetadata: &md, FilePointerBytes: victim.PointerBytes}}, nil)
+	return md, &buf, true
+}
+
+// childScenario runs in a process of its own (see main.go) and prints "OK ..." when the scenario ends normally.
+func childScenario(name string) {
+	switch name {
+	case "reversed-sections-query":
+		for _, mqc := range []int{1, 4} {
+			env, total := dirPop(mqc, 1, 9, 3)
+			if _, _, ok := reverseSections(env); !ok {
+				fmt.Println("OK (layout not reversible)")
+				return
+			}
+			eng := freshOver(env, "never")
+			for _, q := range []*bs.Query{bs.NewQuery().Token("needle").Build(), bs.NewQuery().Field("w").Build(), bs.NewQuery().Token("absent").Build()} {
+				res, err := eng.Query(context.Background(), q)
+				if err != nil {
+					continue
+				}
+				rows, _ := drainWatch(res, 10*time.Second)
+				e := res.Err()
+				res.Close()
+				fmt.Printf("OK rows=%d of %d err=%v\n", len(rows), total, e)
+			}
+		}
+	default:
+		fmt.Println("unknown child scenario", name)
+		os.Exit(2)
+	}
+}
+
+// runChild runs a child scenario; ok=false when the child process died (panic, fatal error, timeout).
+func runChild(name string) (ok bool, output string) {
+	ctx, cancel := context.WithTimeout(context.Background(), 60*time.Second)
+	defer cancel()
+	out, err := exec.CommandContext(ctx, os.Args[0], "child", name).CombinedOutput()
+	return err == nil, string(out)
 }
